@@ -1054,10 +1054,10 @@ impl CodegenContext {
                         // do not collide with (or silently reuse the addresses of) the previous iteration's
                         let iteration_scope = Identifier::new(format!("{}_{}", loop_scope, index));
                         self.with_scope(&iteration_scope, Some(block), |s| {
-                            s.add_symbol(
-                                "index",
-                                s.symbol(expr.span, index, SymbolType::Constant),
-                            )?;
+                            // ('index' is generated: it has no place in the source. Giving it the span of the count
+                            // expression made that whole expression a "definition" that go to definition, highlights and
+                            // references reported for every identifier inside it.)
+                            s.add_symbol("index", s.symbol(None, index, SymbolType::Constant))?;
                             let result = s.emit_tokens(&block.inner);
                             s.remove_symbol("index");
                             result
